@@ -788,22 +788,25 @@ func sameVal(a, b ssa.Value) bool {
 }
 
 func lenGuarded(b *ssa.BasicBlock, idx, base ssa.Value) bool {
+	// the length compared with must be the length of the indexed value itself (a bound taken from a different
+	// value - the byte length of the string a rune slice was made from - proves nothing)
+	sameBase := func(v ssa.Value) bool {
+		c, ok := v.(*ssa.Call)
+		if !ok || !isLenOf(c, nil) {
+			return false
+		}
+		return stripConv(c.Call.Args[0]) == stripConv(base) || c.Call.Args[0] == base
+	}
 	for _, a := range guardAtoms(b) {
 		bo, ok := a.V.(*ssa.BinOp)
 		if !ok {
 			continue
 		}
 		// idx <= len(x) suffices for a slice bound, idx < len(x) for an index; both forms with the same length
-		if sameVal(bo.X, idx) && isLenOf(bo.Y, nil) && ((bo.Op == token.LSS && a.Pol) || (bo.Op == token.GEQ && !a.Pol)) {
+		if (sameVal(bo.X, idx) || bo.X == idx) && sameBase(bo.Y) && ((bo.Op == token.LSS && a.Pol) || (bo.Op == token.GEQ && !a.Pol)) {
 			return true
 		}
-		if sameVal(bo.Y, idx) && isLenOf(bo.X, nil) && ((bo.Op == token.GTR && a.Pol) || (bo.Op == token.LEQ && !a.Pol)) {
-			return true
-		}
-		if bo.X == idx && isLenOf(bo.Y, nil) && ((bo.Op == token.LSS && a.Pol) || (bo.Op == token.GEQ && !a.Pol)) {
-			return true
-		}
-		if bo.Y == idx && isLenOf(bo.X, nil) && ((bo.Op == token.GTR && a.Pol) || (bo.Op == token.LEQ && !a.Pol)) {
+		if (sameVal(bo.Y, idx) || bo.Y == idx) && sameBase(bo.X) && ((bo.Op == token.GTR && a.Pol) || (bo.Op == token.LEQ && !a.Pol)) {
 			return true
 		}
 	}
